@@ -131,7 +131,9 @@ contract(
     params={"self": Ref("TaskScenario")}, ret=Bool,
     requires=_sched_common_req + [
         ("forward", "attr(self.property, 'forward', self.scenarioIdx) is not None and some(attr(self.property, 'forward', self.scenarioIdx))"),
-        ("no-own-start", "TStart(self.property, self.scenarioIdx) is None"),
+        # no date pinned on the task itself: no start at all, or one inherited from a dated container (a lower bound)
+        ("no-own-start", "TStart(self.property, self.scenarioIdx) is None or "
+                         "(uf_inherited(self.property, self.scenarioIdx) and some(TStart(self.property, self.scenarioIdx)) >= PStart(self.project))"),
         ("effort-task", "IsEffortTask(self) and attr(self.property, 'allocate', self.scenarioIdx) is not None and "
                         "len(some(attr(self.property, 'allocate', self.scenarioIdx))) > 0"),
         # predecessors are placed: their dates are in the horizon (readiness + C11 of the predecessors)
@@ -163,6 +165,9 @@ contract(
         # C06/C11: dates inside the horizon, start before end
         ("in-horizon", "implies(result, TStart(self.property, self.scenarioIdx) is not None and TEnd(self.property, self.scenarioIdx) is not None and "
                        "some(TStart(self.property, self.scenarioIdx)) >= PStart(self.project))"),
+        # C04: the start of a dated container is a lower bound for its children (and never an excuse to skip the edges above)
+        ("not-before-container-start", "implies(result and old(TStart(self.property, self.scenarioIdx)) is not None, "
+                                       "some(TStart(self.property, self.scenarioIdx)) >= some(old(TStart(self.property, self.scenarioIdx))))"),
     ],
     calls={
         "self.getAllDependencies": ("contract", TS + "::TaskScenario.getAllDependencies"),
@@ -171,6 +176,7 @@ contract(
         "self.project.dateToIdx": ("spec", ["self", "d"], "PIdx(self, d)"),
         "self.project.idxToDate": ("spec", ["self", "i"], "ite(self.attributes['start'] is None, None, PT(self, i))"),
         "self.isWorkingTime": ("contract", TS + "::TaskScenario.isWorkingTime"),
+        "self.property.inherited": ("spec", ["self", "a", "sc"], "uf_inherited(self, sc)"),
         "round": ("pure", Real),      # round(x, 6): some real (only used to size the working-time gap; not needed for the bound)
         "self.scheduleSlot": ("contract", TS + "::TaskScenario.scheduleSlot"),
     },
@@ -178,7 +184,8 @@ contract(
     loops={
         # dependency loop (forward branch): the bound dominates every predecessor seen so far
         0: {"inv": [
-            ("bound", "earliest_start >= PStart(self.project)"),
+            ("bound", "earliest_start >= PStart(self.project) and implies(TStart(self.property, self.scenarioIdx) is not None, "
+                      "earliest_start >= some(TStart(self.property, self.scenarioIdx)))"),
             ("dominates", "forall(k, 0, _i, implies(DepTask(_iter[k]) is not None and DepTime(_iter[k], self.scenarioIdx) is not None, "
                           "secs(earliest_start) >= secs(some(DepTime(_iter[k], self.scenarioIdx))) + DepGap(_iter[k])))"),
         ], "locals": {"earliest_start": DT, "t": Opt(Ref("Task")), "gapduration": Opt(Str), "gaplength": Opt(Str),
@@ -196,12 +203,14 @@ contract(
             ("unfinished", "self.doneEffort >= 0 and self.doneEffort < EffortOf(self)"),
             # the intra-slot offset belongs to the slot that contains the dependency bound only (C08: it is not reserved
             # again in a later slot)
-            ("not-before-bound", "some(self.currentSlotIdx) >= slot_idx and self.slotStartOffset >= 0 and "
-                                 "self.slotStartOffset == ite(some(self.currentSlotIdx) == slot_idx, "
-                                 "secs(earliest_start) - secs(PT(self.project, slot_idx)), 0)"),
+            ("not-before-bound", "some(self.currentSlotIdx) >= PIdx(self.project, earliest_start) and self.slotStartOffset >= 0 and "
+                                 "self.slotStartOffset == ite(some(self.currentSlotIdx) == PIdx(self.project, earliest_start), "
+                                 "secs(earliest_start) - secs(PT(self.project, PIdx(self.project, earliest_start))), 0)"),
             # C04: once a start is written it is not before the dependency bound
-            ("start-ok", "ite(TStart(self.property, self.scenarioIdx) is None, self.doneEffort == 0, "
-                         "some(TStart(self.property, self.scenarioIdx)) >= earliest_start)"),
+            ("start-ok", "ite(self.doneEffort == 0, TStart(self.property, self.scenarioIdx) == old(TStart(self.property, self.scenarioIdx)), "
+                         "TStart(self.property, self.scenarioIdx) is not None and some(TStart(self.property, self.scenarioIdx)) >= earliest_start)"),
+            ("container-bound", "implies(old(TStart(self.property, self.scenarioIdx)) is not None, "
+                                "earliest_start >= some(old(TStart(self.property, self.scenarioIdx))))"),
             ("not-yet-scheduled", "not Sched(self.property, self.scenarioIdx) or True"),
         ], "decreases": "Upper(self.project) - some(self.currentSlotIdx)",
             "locals": {"first_booked_slot": Opt(Int), "previous_effort": Real}},
